@@ -7,7 +7,7 @@ META = {
     "rule": "V1 name class per Definition variant (path-sensitive walk of rename's match); "
             "V2 exactly-one-token gate; V3 locality gate on prepare_rename and rename; "
             "V4 sibling agreement of the gate sets; V5 server forwards new_name / maps Err; V6 a package's locality is computed from its own root path (build/packages) only; V7 both dependency tables of gleam.toml are followed. "
-            "An obligation is non-trivial when its verdict needed a path or dominance argument. V3 also: the package whose locality is asked is that of Definition::module(..) of find_def's result, not of the cursor's file. V8 every TextEdit of rename is built under an is_local test of the package of the file the use was found in. V9 is_local is computed from the text of the root path (no file-system call); V10 lower_vfs deals files to the longest matching root.",
+            "An obligation is non-trivial when its verdict needed a path or dominance argument. V3 also: the package whose locality is asked is that of Definition::module(..) of find_def's result, not of the cursor's file. V8 every TextEdit of rename is built under an is_local test of the package of the file the use was found in. V9 is_local is computed from the text of the root path (no file-system call); V10 lower_vfs deals files to the longest matching root. V11 the per-module locality test is built on Package::is_local of the module\u2019s own package.",
     "explanation": "Decides the validation/gating clauses of C08 for every input at once by reading "
                    "the MIR of ide::ide::rename::{rename,prepare_rename,find_def} and the LSP handler: "
                    "each Definition variant must reach success only through a comparison of the lexed "
@@ -128,6 +128,10 @@ def name_class_walk(F, fn, res):
     res.analysed["V1_variants"] = sorted(inv)
 
 
+# what counts as "the file belongs to a local package": the package's flag, or the per-module test built on it (V11)
+LOCAL_TESTS = ("Package::is_local", "hir::Module::is_local")
+
+
 def gate_set(F, fn, targets, depth=0):
     """gates for reaching targets, with same-module helper calls expanded one level"""
     out = []
@@ -172,7 +176,7 @@ def sem_gates(F, fn, res, rule):
             sem["definition-found"] = g
         elif c == FIND_DEF and g["allowed"] == ["Left"]:
             sem["not-aliased"] = g
-        elif c.endswith("Package::is_local") and g["allowed"] == [True]:
+        elif c.endswith(LOCAL_TESTS) and g["allowed"] == [True]:
             sem["local-package"] = g
         elif g.get("enum") == DEF and "Module" not in g["allowed"] and "BuiltIn" not in g["allowed"]:
             sem["not-module-or-builtin"] = g
@@ -308,6 +312,7 @@ def run(F, res, tier):
     v6(F, res)
     edits_only_in_local_files(F, res)
     locality_comes_from_the_registered_path(F, res)
+    module_locality_implies_package_locality(F, res)
 
 
 # gleam.toml tables whose entries `gleam deps download` puts under build/packages (Gleam manifest format)
@@ -424,7 +429,7 @@ def edits_only_in_local_files(F, res, rule="V8"):
         g = F.fns[q]
         d = FL.Defs(g)
         for gt in FL.gates(F, g, [b], d):
-            if (gt.get("callee") or "").endswith("Package::is_local") and gt["allowed"] == [True]:
+            if (gt.get("callee") or "").endswith(LOCAL_TESTS) and gt["allowed"] == [True]:
                 dep = FL.depends(F, g, d, gt["call_t"]["args"][0])
                 # the test on the definition's own module (V3) is another one: this one is about the file a use was found in
                 if "Definition::module" not in dep["calls"]:
@@ -498,3 +503,70 @@ def locality_comes_from_the_registered_path(F, res, rule="V9"):
     # max_by_key form: the chosen root originates from the selection itself
     res.ob("V10", "lower_vfs/longest-root-first", "lower_vfs orders (or selects) the candidate roots by their length before it deals a file to the first "
            "match", ok10, where=lv.loc(), how="orderings by a length: %d, FileSet insertions: %d, each after one: %s" % (len(srt), len(ins), ok10))
+
+
+def module_locality_implies_package_locality(F, res, rule="V11"):
+    """V11: the gates of V3/V8 may ask hir::Module::is_local instead of Package::is_local. That test has to be at least as
+    strict: its answer depends on Package::is_local of the module's own package (so a module of a dependency is never local),
+    and it may only add refusals - here: a file below a `build/packages` directory is not local whatever the package graph
+    says (a package there that no gleam.toml lists has no entry in the graph and would count as part of the enclosing
+    local package)."""
+    p = "ide::def::hir::Module::is_local"
+    if p not in F.fns:
+        res.ob(rule, "module-is-local", "the locality gates look at the file, not only at its package: a file below build/packages whose package is not in "
+               "the package graph (a stale download, a dependency of a path dependency, an unreadable gleam.toml) belongs to the enclosing local "
+               "source root and would be edited", False, where="crates/ide/src/def/hir.rs", how="hir::Module::is_local does not exist: the gates ask Package::is_local alone")
+        return
+    # every locality gate of rename asks the per-module test
+    direct = []
+    for q in sorted(F.fns):
+        if q.startswith("ide::ide::rename::") and F.fns[q].blocks:
+            for b, t in F.fns[q].calls():
+                if (callee(t) or "").endswith("Package::is_local"):
+                    direct.append("%s line %d" % (FL.short(q), t["ln"]))
+    res.ob(rule, "rename-asks-the-module", "rename and prepare_rename ask Module::is_local (package and path), never Package::is_local alone", not direct,
+           where="crates/ide/src/ide/rename.rs", how="direct Package::is_local calls: %s" % direct)
+    f = F.fn(p)
+    d = FL.Defs(f)
+    dep = {"calls": set(), "strs": set(), "args": set()}
+    for b in f.return_blocks():
+        pass
+    # the returned bool: every assignment to _0
+    for b, i, s in f.stmts():
+        if s["k"] == "assign" and s["place"]["l"] == 0 and not s["place"]["p"]:
+            rv = s["rv"]
+            for key in ("op", "a", "b"):
+                if isinstance(rv.get(key), dict):
+                    x = FL.depends(F, f, d, rv[key], use_bb=b)
+                    for k in dep:
+                        dep[k] |= x[k]
+            # a constant `false`/`true` assigned under a branch depends on what the branch tests
+            for gb, _v in FL.edge_conditions(f, [b]):
+                x = FL.depends(F, f, d, f.term(gb)["op"])
+                for k in dep:
+                    dep[k] |= x[k]
+    for b, t in f.calls():
+        if t["dest"]["l"] == 0 and not t["dest"]["p"]:
+            dep["calls"].add(FL.short(callee(t) or callee_def(t) or ""))
+            for a in t["args"]:
+                x = FL.depends(F, f, d, a)
+                for k in dep:
+                    dep[k] |= x[k]
+    pkg = any(c.endswith("Package::is_local") for c in dep["calls"])
+    own = any(c.endswith("Module::package") or c.endswith("file_source_root") for c in dep["calls"])
+    strs = set(dep["strs"])
+    for cp in F.with_closures(p):
+        cf = F.fns[cp]
+        for _b, _i, s_ in cf.stmts():
+            rv = s_.get("rv") or {}
+            for o in [rv.get("op"), rv.get("a"), rv.get("b")] + list(rv.get("ops", []) or []):
+                if isinstance(o, dict) and isinstance(o.get("k"), dict) and "str" in o["k"]:
+                    strs.add(o["k"]["str"])
+        for _b, t in cf.calls():
+            for a in t["args"]:
+                if isinstance(a, dict) and isinstance(a.get("k"), dict) and "str" in a["k"]:
+                    strs.add(a["k"]["str"])
+    paths = sorted(x for x in strs if "build/packages" in x.replace("\\", "/"))
+    res.ob(rule, "module-is-local", "hir::Module::is_local answers from Package::is_local of the module's own package and from the file's path (below "
+           "build/packages = fetched dependency); it can only refuse more than the package flag", pkg and own and bool(paths), where=f.loc(),
+           how="answer depends on Package::is_local: %s, on the module's own package: %s; path literals tested: %s" % (pkg, own, paths))
